@@ -208,6 +208,13 @@ def spec (even : Bool) (shapeLen T N d1 d2 : Nat) (A : Series α) (k : Nat) : α
   if even then specLinear shapeLen T N d1 d2 A k / specLinear shapeLen T N d1 d2 A 0
   else specLog shapeLen N d1 d2 A k / specLog shapeLen N d1 d2 A 0
 
+/-- the time axis: frame time relative to the first frame, times the time step -/
+def specTime (ts : Nat → α) (dt : α) (k : Nat) : α := (ts k - ts 0) * dt
+
+/-- the lag-0 sum of the Spec: Σ over all origins (evenly spaced) resp. the first frame only -/
+def lag0 (even : Bool) (shapeLen T N d1 d2 : Nat) (A : Series α) : α :=
+  if even then sumRange T fun t => pair shapeLen N d1 d2 A t t else pair shapeLen N d1 d2 A 0 0
+
 /-- all consecutive differences equal (vacuous for T ≤ 1; for T ≥ 2 equal to the first) -/
 def Evenly (ts : Nat → α) (T : Nat) : Prop := ∀ i, i + 1 < T → ts (i + 1) - ts i = ts 1 - ts 0
 
